@@ -265,6 +265,7 @@ func tagVal(r *gen.Rand, k string) string {
 
 type Out struct {
 	Kind  string `json:"kind"` // query | info | error
+	DB    string `json:"db,omitempty"`
 	Mst   string `json:"mst,omitempty"`
 	Q     string `json:"q,omitempty"`
 	A     []int  `json:"a"`   // idx returned by the single-partition server
@@ -351,14 +352,32 @@ func main() {
 		}
 		return nil
 	}
-	const db = "c11bb"
 	r := gen.FromEnv(1111)
-	for _, q := range []string{
-		"CREATE DATABASE " + db + " WITH SHARD DURATION 1h NAME rp0",
+	// database 1: no database-level key, every measurement has its own (or none); ALTER SHARDKEY between two batches
+	workload(sa, sb, both, emit, fail, r, "c11bb", nq, ptnum, []string{
+		"CREATE DATABASE c11bb WITH SHARD DURATION 1h NAME rp0",
 		"CREATE MEASUREMENT cpu WITH SHARDKEY host",
 		"CREATE MEASUREMENT mem WITH SHARDKEY region",
 		"CREATE MEASUREMENT net WITH SHARDKEY dc,host",
-	} {
+	}, []stmtStep{{before: 8, q: "ALTER MEASUREMENT cpu WITH SHARDKEY region"}},
+		map[string][]string{"cpu": {"host", "region"}, "mem": {"region", "host"}, "net": {"dc", "host"}})
+	// database 2: created WITH SHARDKEY region; cpu and net are created with keys of their own inside it, mem and disk are
+	// created by the first write. Every row is placed by region, whatever the measurement says.
+	nq2 := nq / 2
+	if nq2 < 8 {
+		nq2 = 8
+	}
+	workload(sa, sb, both, emit, fail, r, "c11bk", nq2, ptnum, []string{
+		"CREATE DATABASE c11bk WITH SHARD DURATION 1h SHARDKEY region NAME rp0",
+		"CREATE MEASUREMENT cpu WITH SHARDKEY host",
+		"CREATE MEASUREMENT net WITH SHARDKEY dc,host",
+	}, nil, map[string][]string{"cpu": {"region", "host"}, "mem": {"region"}, "net": {"region", "dc", "host"}, "disk": {"region"}})
+	emit(Out{Kind: "info", Msg: fmt.Sprintf("done: partitions 1 vs %d", ptnum)})
+}
+
+func workload(sa, sb *server, both func(db, q string) error, emit func(Out), fail func(string), r *gen.Rand, db string, nq, ptnum int,
+	setup []string, steps []stmtStep, forced map[string][]string) {
+	for _, q := range setup {
 		if err := both(db, q); err != nil {
 			sa.kill()
 			sb.kill()
@@ -390,7 +409,7 @@ func main() {
 				}
 			}
 			// every measurement's own shard-key tags are present (otherwise the row is rejected; that is allowed but dull)
-			for _, k := range map[string][]string{"cpu": {"host", "region"}, "mem": {"region", "host"}, "net": {"dc", "host"}}[m] {
+			for _, k := range forced[m] {
 				if _, ok := rw.Tags[k]; !ok {
 					rw.Tags[k] = tagVal(r, k)
 				}
@@ -414,7 +433,6 @@ func main() {
 			}
 		}
 	}
-	steps := []stmtStep{{before: 8, q: "ALTER MEASUREMENT cpu WITH SHARDKEY region"}}
 	written := map[string][]*row{}
 	for b, batch := range batches {
 		for _, st := range steps {
@@ -511,7 +529,7 @@ func main() {
 		if q.cond != "" {
 			text += " WHERE " + q.cond
 		}
-		o := Out{Kind: "query", Mst: q.mst, Q: text, A: []int{}, B: []int{}, Exp: []int{}}
+		o := Out{Kind: "query", DB: db, Mst: q.mst, Q: text, A: []int{}, B: []int{}, Exp: []int{}}
 		if ser, err := sa.query(db, text); err != nil {
 			o.ErrA = err.Error()
 		} else if o.A, err = idxOf(ser); err != nil {
@@ -567,5 +585,5 @@ func main() {
 		}
 		emit(o)
 	}
-	emit(Out{Kind: "info", Msg: fmt.Sprintf("done: %d rows in %d batches, %d queries, partitions 1 vs %d", len(rows), len(batches), len(qs), ptnum)})
+	emit(Out{Kind: "info", Msg: fmt.Sprintf("database %s: %d rows in %d batches, %d queries, partitions 1 vs %d", db, len(rows), len(batches), len(qs), ptnum)})
 }
